@@ -6,3 +6,4 @@ pub mod field;
 pub mod poly;
 pub mod rescue;
 pub mod merkle;
+pub mod proofcodec;
